@@ -31,6 +31,26 @@ type kindT struct {
 	jsonV func(s string) any          // typed value placed in the JSON document
 }
 
+// nVsets value sets: 0 ordinary, 1 extreme, 2 empty text (cli, env), and three sets of coinciding
+// values - the combinations of two harmless things a "skip what cannot matter" shortcut gets wrong:
+// 3 the command line and the environment repeat the text of the tag default (the JSON differs),
+// 4 they spell the zero value, 5 the JSON holds the zero value under a non-zero default.
+const nVsets = 6
+
+var zeroText = map[string]string{"bool": "false", "int": "0", "int64": "0", "uint": "0", "uint64": "0", "string": "", "float64": "0", "duration": "0s", "bytes": ""}
+
+func (k kindT) text(vset, src int) string {
+	switch {
+	case vset < 3:
+		return k.texts[vset][src]
+	case vset == 3 && src < 2:
+		return k.texts[0][3]
+	case vset == 4 && src < 2, vset == 5 && src == 2:
+		return zeroText[k.name]
+	}
+	return k.texts[0][src]
+}
+
 func parseInt(bits int) func(string) (any, error) {
 	return func(s string) (any, error) {
 		if s == "" {
@@ -190,7 +210,7 @@ func runCase(k kindT, pos, syntax, defKind, subset, vset, carrier, spelling, oth
 	// sources mentioning the field under test: bit0 cli, bit1 env, bit2 json, bit3 default
 	def := ""
 	if subset&8 != 0 {
-		def = k.texts[vset][3]
+		def = k.text(vset, 3)
 	}
 	if defKind == 0 && subset&8 != 0 {
 		// "default" source silent is expressed by an empty tag default; both are covered by subset bit 3
@@ -206,7 +226,7 @@ func runCase(k kindT, pos, syntax, defKind, subset, vset, carrier, spelling, oth
 		return
 	}
 	var argv []string
-	cliText, envText, jsonText := k.texts[vset][0], k.texts[vset][1], k.texts[vset][2]
+	cliText, envText, jsonText := k.text(vset, 0), k.text(vset, 1), k.text(vset, 2)
 	if subset&1 != 0 {
 		switch {
 		case k.name == "bool" && spelling == 1:
@@ -417,7 +437,7 @@ func main() {
 			for pos := 0; pos < 4; pos++ {
 				for syntax := 0; syntax < 2; syntax++ {
 					for subset := 0; subset < 16; subset++ {
-						for vset := 0; vset < 3; vset++ {
+						for vset := 0; vset < nVsets; vset++ {
 							for carrier := 0; carrier < 3; carrier++ {
 								for spelling := 0; spelling < 3; spelling++ {
 									for _, os2 := range otherSubsets {
@@ -477,7 +497,7 @@ func main() {
 	vcommon.WriteEvidence(&vcommon.Evidence{PropertyID: "C09", Level: "exploration", Violations: n,
 		Coverage: map[string]any{
 			"evaluations": total.Evals, "distinct_nontrivial": len(total.Distinct),
-			"rule":       "struct types generated with reflect.StructOf: 9 kinds x 4 nesting positions (incl. acronym names DB.URL -> CFG_DB_URL) x 2 tag syntaxes x all 16 subsets of {cli, env, JSON, tag default} mentioning the field x 3 value sets (ordinary / extreme / empty text for cli and env) x 3 JSON carrier modes (-config file, CFG_CONFIG_B64, both present: the file wins and the variable is ignored) x 3 cli spellings x the second field's own source subsets; after Parse the field must equal the strconv-parsed value of the highest-priority mentioning source; distinct_nontrivial = distinct (kind, subsets, resulting value)",
+			"rule":       "struct types generated with reflect.StructOf: 9 kinds x 4 nesting positions (incl. acronym names DB.URL -> CFG_DB_URL) x 2 tag syntaxes x all 16 subsets of {cli, env, JSON, tag default} mentioning the field x 6 value sets (ordinary / extreme / empty text for cli and env / cli and env repeating the tag default's text / cli and env spelling the zero value / JSON holding the zero value under a non-zero default) x 3 JSON carrier modes (-config file, CFG_CONFIG_B64, both present: the file wins and the variable is ignored) x 3 cli spellings x the second field's own source subsets; after Parse the field must equal the strconv-parsed value of the highest-priority mentioning source; distinct_nontrivial = distinct (kind, subsets, resulting value)",
 			"exhaustive": true, "second_field_subsets": otherSubsets, "parse_errors_not_judged": total.Failed,
 			"samples": []any{"kind=duration position=doubly-nested tag-syntax=1 sources=0110 (env, json) value-set=1 carrier=CFG_CONFIG_B64 -> -1ns from CFG_SUB_DEEP_VAL", "kind=bytes position=top sources=1001 value-set=2 (empty cli text) -> nil"},
 		},
